@@ -136,6 +136,14 @@ def install3(R):
     S = R.spec
     E = "sget(iter_(all_cases), s)"
     Kp = "truthy(MissingAt(ds, dict(zip(fn_args, " + E + ")), method))"
+    # the statement, over the arguments and the result only: the reported names are the dataset's dimensions that are not ignored; the
+    # reported locations are exactly the elements of the grid (product of the coordinate values of those names, in that order) at which
+    # every variable is entirely null
+    IGN = "({ignore_dims} if isinstance(ignore_dims, str) else set(ignore_dims) if ignore_dims else set())"
+    NAMES = "sget(result, 0)"
+    GRID = "Prod(tuple(ds[arg].data for arg in " + NAMES + "))"
+    EG = "sget(" + GRID + ", s)"
+    KG = "truthy(MissingAt(ds, dict(zip(" + NAMES + ", " + EG + ")), method))"
     R.add(CASE + "find_missing_cases", result="V", props=["C13"], types={"method": "str"},
           loops={"gen_missing_list/loop0": dict(idx="_s", modifies=["_yielded", "setting", "case"], inv=[
               ("built", "is_seq(_yielded)"),
@@ -143,12 +151,18 @@ def install3(R):
                                          "sget(_yielded, k) == " + E + " and " + Kp + ")))"),
               ("every_missing_location", "forall(lambda s: implies(0 <= s and s < _s and " + Kp + ", sin(_yielded, " + E + ")))"),
           ])},
-          trace=[("reports_only_locations_without_data",
-                  "forall(lambda k: implies(0 <= k and k < slen(sget(result, 1)), exists(lambda s: 0 <= s and s < slen(iter_(all_cases)) and "
-                  "sget(sget(result, 1), k) == " + E + " and " + Kp + ")))"),
-                 ("reports_every_location_without_data",
-                  "forall(lambda s: implies(0 <= s and s < slen(iter_(all_cases)) and " + Kp + ", sin(sget(result, 1), " + E + ")))"),
-                 ("names_first", "sget(result, 0) == fn_args")],
+          ensures=[("reports_only_locations_without_data",
+                    "forall(lambda k: implies(0 <= k and k < slen(sget(result, 1)), exists(lambda s: 0 <= s and s < slen(" + GRID + ") and "
+                    "sget(sget(result, 1), k) == " + EG + " and " + KG + ")))"),
+                   ("reports_every_location_without_data",
+                    "forall(lambda s: implies(0 <= s and s < slen(" + GRID + ") and " + KG + ", sin(sget(result, 1), " + EG + ")))"),
+                   ("names_are_dimensions_that_are_not_ignored",
+                    "forall(lambda k: implies(0 <= k and k < slen(" + NAMES + "), sin(iter_(ds.dims), sget(" + NAMES + ", k)) and "
+                    "sget(" + NAMES + ", k) not in " + IGN + "))"),
+                   ("every_dimension_that_is_not_ignored_is_a_name",
+                    "forall(lambda i: implies(0 <= i and i < slen(iter_(ds.dims)) and sget(iter_(ds.dims), i) not in " + IGN + ", "
+                    "sin(" + NAMES + ", sget(iter_(ds.dims), i))))"),
+                   ("a_pair", "slen(result) == 2")],
           raises={"AnyError": dict()},
           notes="all_cases = product of the coordinate values of the non-ignored dimensions (grid order); order and duplicate-freeness of the "
                 "report are bounded only")
